@@ -54,6 +54,7 @@ def run_one(B, shim, wd, rq, bursts, exitcode=0, sig=0, pad=0, timeout=60, extra
     os.makedirs(d + '/cwd')
     open(d + '/job.sh', 'w').write(job_script(d, bursts, exitcode, sig, pad))
     open(d + '/in.txt', 'w').write(rq.get('stdin', ''))
+    if rq.get('mailrc'): open(d + '/mailrc', 'w').write('%d\n' % rq['mailrc'])
     sh = rq.get('shell', '/bin/sh')
     L = ['BEGIN:VCALENDAR', 'VERSION:2.0', 'BEGIN:VTODO', 'UID:job-%s' % os.path.basename(d), 'SUMMARY:. %s/job.sh' % d,
          'X-ECHS-SETUID:%d' % os.getuid(), 'X-ECHS-SETGID:%d' % os.getgid(), 'X-ECHS-SHELL:' + sh, 'LOCATION:' + d + '/cwd',
